@@ -1118,10 +1118,18 @@ func REolNl(c *core.Ctx) {
 		}
 		return "", false
 	}
+	// an if statement that has no alternative for a one-character successor of its own (rows added
+	// in a separate `if` further down the same branch) is judged by the nearest one before it
+	lastOne, haveLast := "", false
 	visit := func(root ast.Expr) {
 		var alts []ast.Expr
 		flatOr(root, &alts)
 		oneTest, haveOne := oneTestOf(alts)
+		if haveOne {
+			lastOne, haveLast = oneTest, true
+		} else if haveLast {
+			oneTest, haveOne = lastOne, true
+		}
 		for _, e := range alts {
 			kind := mentionsKind(e)
 			if kind == "" {
